@@ -667,8 +667,8 @@ class Triggers(Monitor):
           changed_by_user = any(prer[r].get(c) != postr[r].get(c) for c in w)
           if changed_by_user:
             verdict, why = 'must', 'MANUAL_UPDATES and a user update changed the row'
-          elif not w:
-            verdict, why = 'not', 'MANUAL_UPDATES and no user update touched the row'
+          else:
+            verdict, why = 'not', 'MANUAL_UPDATES and no user update changed the row'
         else:
           # DEFAULT
           data_inputs = set()
